@@ -353,12 +353,17 @@ ExtTemplates ==
   \cup {<<"or", <<"then", J("a"), <<"then", J("b"), J("c")>>>>, <<"then", <<"extsub", x>>, J("c")>>>> : x \in ExtInner}
   \cup {<<"collect", <<"rep", <<"extsub", <<"then", J("a"), <<"ornot", J("b")>>>>>>, 0, Inf>>, "vec">>,
         <<"run", <<"rep", <<"extsub", <<"then", J("a"), <<"ornot", J("b")>>>>>>, 0, Inf>>>>}
-Templates(fam) == CASE fam = "memoT" -> MemoTemplates [] fam = "extT" -> ExtTemplates [] fam = "gapT" -> GapTemplates [] fam = "gapTi" -> {g \in GapTemplates : ~HasOp(g, {"any", "not"})} [] fam = "rcvE" -> RcvETemplates [] fam = "stat" -> StatGrammars [] fam = "rcvN" -> RcvNTemplates [] fam = "txt" -> TxtTemplates [] fam = "txtc" -> TxtCTemplates
+(* slices of sub-matches that stop before the end of the input (C07), for every input kind that has slices *)
+SlcInner == {J("a"), JJ("a", "b"), <<"ornot", J("b")>>, <<"any">>, <<"collect", <<"rep", J("a"), 0, Inf>>, "vec">>, <<"rewind", <<"any">>>>}
+SlcTemplates == {<<"then", <<"toslice", x>>, RestCap>> : x \in SlcInner}
+                \cup {<<"then", J("a"), <<"then", <<"toslice", x>>, RestCap>>>> : x \in SlcInner}
+                \cup {<<"then", <<"mw", <<"toslice", x>>>>, <<"toslice", RestCap>>>> : x \in SlcInner}
+Templates(fam) == CASE fam = "memoT" -> MemoTemplates [] fam = "slcT" -> SlcTemplates [] fam = "extT" -> ExtTemplates [] fam = "gapT" -> GapTemplates [] fam = "gapTi" -> {g \in GapTemplates : ~HasOp(g, {"any", "not"})} [] fam = "rcvE" -> RcvETemplates [] fam = "stat" -> StatGrammars [] fam = "rcvN" -> RcvNTemplates [] fam = "txt" -> TxtTemplates [] fam = "txtc" -> TxtCTemplates
                     \* byte inputs have no text::newline; the radix family looks at int / digits only
                     [] fam = "txtb" -> {g \in TxtTemplates \cup TxtCTemplates : ~HasOp(g, {"newline"}) /\ g \notin {TUKw(<<"E", "a">>), <<"then", TUKw(<<"E", "a">>), RestCap>>}}
                     [] fam = "txtr" -> {<<"then", tp, RestCap>> : tp \in {TDigits(r) : r \in {"2", "8", "10", "16", "36"}} \cup {TInt(r) : r \in {"2", "8", "10", "16", "36"}}} [] fam = "drpT" -> DrpTemplates [] fam = "rcvT" -> RcvTemplates [] fam = "lblT" -> LblTemplates
                     [] fam = "pratt" -> PrattTemplates [] fam = "prattP" -> PrattPTemplates [] fam = "rec" -> RecTemplates [] fam = "lrec" -> LRecTemplates [] fam = "repT" -> RepTemplates
-TemplateFams == {"rec", "lrec", "repT", "pratt", "prattP", "memoT", "rcvT", "lblT", "drpT", "txt", "txtc", "txtb", "txtr", "gapT", "gapTi", "rcvN", "stat", "rcvE", "extT"}
+TemplateFams == {"rec", "lrec", "repT", "pratt", "prattP", "memoT", "rcvT", "lblT", "drpT", "txt", "txtc", "txtb", "txtr", "gapT", "gapTi", "rcvN", "stat", "rcvE", "extT", "slcT"}
 
 (* Instrumentation (C01, C18): every node of a grammar is wrapped in probe(enter).ignore_then(node).then_ignore(   *)
 (* probe(exit)); a probe consumes nothing, never fails and logs (id, cursor, inspector state, context), so the   *)
